@@ -162,6 +162,31 @@ func (c *configuration) validate() (err error) {
 		}
 	}
 
+	return c.validateConnLimit()
+}
+
+// validateConnLimit returns an error if the thresholds of the stream-connection
+// limiter cannot accommodate the stream listeners of the server groups.  Every
+// listener that is waiting for a new connection already occupies one slot of
+// the limiter, so with thresholds below the number of bound stream addresses
+// some of the listeners never accept anything.  The rest of c must be valid.
+func (c *configuration) validateConnLimit() (err error) {
+	connLim := c.RateLimit.ConnectionLimit
+	if !connLim.Enabled {
+		return nil
+	}
+
+	n := c.ServerGroups.streamAddrNum()
+	if connLim.Resume < n {
+		return fmt.Errorf(
+			"ratelimit: connection_limit: resume: %w: must be greater than or equal to "+
+				"the number of bound stream addresses, %d, got %d",
+			errors.ErrOutOfRange,
+			n,
+			connLim.Resume,
+		)
+	}
+
 	return nil
 }
 
